@@ -95,12 +95,17 @@ async def _leaf_error(depth: int) -> list[str]:
     names = sorted(type(e).__name__ for e in found)
     if names == ["Boom"]:
         return []
-    tag = " [kf:deep_error_replaced_by_recursion_error]" if names == ["RecursionError"] else ""
+    # the known finding F52 is the depth at which BaseExceptionGroup.split() exhausts the interpreter's stack (HEAD: clean
+    # up to 1200, lost from 1500 on); losing the error through a RecursionError at a smaller depth is something else
+    tag = " [kf:deep_error_replaced_by_recursion_error]" if names == ["RecursionError"] and depth >= 1400 else ""
     return [f"{depth} nested task groups (one per task), the innermost task raised Boom and nothing else failed: the "
             f"outermost block raised leaves {names} - the error was dropped{tag}"]
 
 
-def run_c02(depth: int = 3500) -> list[tuple[str, str]]:
+def run_c02(depth: int | None = None) -> list[tuple[str, str]]:
+    """The scenario at depth 1000 (= the default recursion limit; must be clean) and at 3500 (known finding F52)."""
+    if depth is None:
+        return run_c02(1000) + run_c02(3500)
     import json
     import os
     import subprocess
